@@ -148,6 +148,12 @@ class FnTotality:
             if rv[0] == "ref" and len(rv[2]) == 2 and rv[2][1] == "*":
                 return self.len_sym(["cp", [rv[2][0]]], at, depth + 1)
             if rv[0] == "use":
+                o = rv[1]
+                if o[0] in ("cp", "mv") and len(o[1]) == 2 and isinstance(o[1][1], list) and o[1][1][0] == "f":
+                    dd = b.single_def(o[1][0])
+                    if dd and dd[2] == "A" and dd[3][2][0] == "agg" and o[1][1][1] < len(dd[3][2][2]):
+                        return self.len_sym(dd[3][2][2][o[1][1][1]], at, depth + 1)
+                    return None
                 return self.len_sym(rv[1], at, depth + 1)
             return None
         t = d[3]
@@ -419,6 +425,9 @@ class FnTotality:
         if kind == "full":
             s.status = "discharged"
             s.why = "full range"
+        elif kind == "range" and self._range_symbolic_ok(ev, args):
+            s.status = "discharged"
+            s.why = "start <= end <= len by structural bounds (unsigned offsets, min() upper bound)"
         elif kind == "range":
             if a is None or c is None or c[1] == INF:
                 s.why = "range bounds unknown (%s..%s)" % (a, c)
@@ -437,6 +446,14 @@ class FnTotality:
             else:
                 self.need_min(s, base, c[1] + (1 if kind == "toinc" else 0), "range end")
         self.sites.append(s)
+
+    def _range_symbolic_ok(self, ev, args):
+        ro = ev.range_operands(args[1])
+        if ro is None:
+            return False
+        if not ev.diff_nonneg(ro[1], ro[2]):
+            return False
+        return ev.provably_le_len(ro[2], ev.len_key(args[0], []))
 
     def _range_ordered(self, ev, rop):
         ro = ev.range_operands(rop)
